@@ -86,6 +86,7 @@ def constraints(version):
             subsets.append(frozenset(token_ns(t) for t in comb))
     for s in subsets:
         out.append(('in', s, frozenset()))
+    out.append(('in', frozenset(), frozenset()))     # namespace="": admits nothing
     if version == '1.1':
         for s in subsets:
             out.append(('not', s, frozenset()))
